@@ -86,6 +86,22 @@ PROPS = {
         "real_vs_stub": REAL + "; tokenisation by the repo's analyser is trusted (C20 territory)",
         "assumptions": ["tokeniser/stemmer trusted", "queries are only judged while at least one live document has the text field (documented fallback to vector-only otherwise)"],
     },
+    "C02": {
+        "level": "fault_enumeration", "quick": 600, "thorough": 12000, "batch": 10, "min_per_sig": 1,
+        "rule": ("seeded C01-style histories (<=30 ops) run with the disk hook installed; crash images (sparse copy of the data directory as "
+                 "read() sees it = page cache + MAP_SHARED stores, user-space buffers lost) are taken BEFORE file-system events and in the MIDDLE "
+                 "of writes (torn at 1, 5, 10, len-1 and random offsets): quick = sampled (p=.04 per event, .5 inside snapshot/compaction/drop/"
+                 "commit/compress/restart), thorough = every event of every multi-step operation + p=.25 elsewhere; every 3rd image additionally "
+                 "gets a second crash at a random file event of its own recovery. Each image is opened: Open must succeed; every item (KV key, "
+                 "index config parts, vector+metadata, active edge triple) must have a value it held between the last completed durability barrier "
+                 "and the crash (in-flight op included; imported-uncommitted items may be absent); edge has its reverse entry; cursor/count agree "
+                 "with VGet; in-flight batch is a prefix; second Open identical; write+Close+Open loses nothing. Non-trivial: an image inside a "
+                 "multi-step op or >=2 images, after >=2 ops; distinct = op-kind sequence + image positions."),
+        "real_vs_stub": REAL,
+        "expect_probes": ["image_inside_snapshot", "image_inside_rewrite", "image_inside_restart"],
+        "assumptions": ["crash model = process death; durable floor credited only to returned Flush/Sync/SaveSnapshot/RewriteAOF/VImportCommit/VCompress/Close and to ops documented to flush (KVDelete, VAddBatch, VUpdateIndexConfig); periodic ticks are not credited",
+                        "edge history (deletion timestamps) is not compared on crash images: recovery legitimately stamps repaired cascade unlinks with the recovery time"],
+    },
 }
 
 
@@ -95,6 +111,12 @@ NOT_APPLICABLE["C20"] = ("pure functions of their input (text analysis, chunking
                          "no schedule, fault or interleaving for a simulator to decide; property-based testing territory, see DESIGN.md section 7")
 
 MANIFEST_TEXT = {
+    "C02": {
+        "text": "Crash points are enumerated over the file-system event stream of real runs (before every event of multi-step operations in the thorough tier, sampled in quick; torn writes; a second crash inside recovery). Each image is recovered by the real engine and compared item by item with the set of values the reference model says the item held since its last durable write; fixed point and write-after-repair are checked on every image.",
+        "design_ref": "DESIGN.md section 6 C02",
+        "note": "Crash model is process death (no reordering of un-synced writes). The durable floor is counted conservatively (periodic flush ticks never credited), so the oracle can be too lenient about the floor, never too strict. Histories are sampled; crash points within a sampled history are enumerated only for multi-step operations (thorough).",
+        "technique": "deterministic simulation with fault injection: disk-event crash images + torn writes + crash-in-recovery over seeded histories, admissible-state oracle from a reference model",
+    },
     "C08": {
         "text": "Seeded exploration: generated filter ASTs are evaluated by an independent reference evaluator over the model's metadata and compared with VFilter / filtered VSearch in four ways of reaching the same logical state (live, log replay, snapshot restore, compression).",
         "design_ref": "DESIGN.md section 6 C08",
